@@ -16,7 +16,8 @@ RULE = ("C08-style descriptions; in one build a generated subset of the shell co
         "control directory (exit 1-255, SIGSEGV/SIGABRT/SIGTERM on itself, read of a missing undeclared file, "
         "unwritable output), serial and -j4, with the front end either cancelling at the first failure (as the stock CLI does) or letting independent work continue -- in parallel builds other commands are slowed down so that the first "
         "failure cancels them in flight (cancelled commands); optionally preceded by a successful build and source "
-        "edits; then the fault is lifted and the build repeated in a new process. Oracle, faulted build: exit "
+        "edits; then the fault is lifted and the build repeated -- in a new process, or (half of the cases) on the SAME "
+        "BuildSystemFrontend, which resets and reuses its system and engine after the failed / cancelled build. Oracle, faulted build: exit "
         "status != 0 whenever a faulted command ran; for every command that started, no command in its transitive "
         "producer closure failed or was cancelled in that build (started without finishing, or finished with a "
         "failure). Repaired build: every command that failed or was cancelled starts again, the build exits 0 and "
@@ -67,7 +68,9 @@ def case(draw):
         for _ in range(draw(st.integers(0, 2))):
             edits.append({"path": draw(st.sampled_from(srcs)), "text": "edit-%d\n" % draw(st.integers(0, 3))})
     return {"desc": desc, "target": target, "faults": faulted, "slow": slow, "jobs": jobs, "prebuild": pre,
-            "edits": edits, "keep_going": draw(st.booleans())}
+            "edits": edits, "keep_going": draw(st.booleans()),
+            # every build of the case through ONE BuildSystemFrontend (reset and reused after the failure)
+            "same_process": draw(st.booleans())}
 
 
 def strategy(tier):
@@ -97,6 +100,7 @@ def closure(desc, name):
 
 def run_case(case, ctx, verbose=False):
     ws = bm.Workspace(ctx)
+    sess = None
     try:
         desc = copy.deepcopy(case["desc"])
         for s, text in desc["sources"].items():
@@ -108,8 +112,17 @@ def run_case(case, ctx, verbose=False):
         if ev.missing_inputs:
             return Outcome(None, classes=["legit-missing-input"])
         cls = []
+        if case.get("same_process"):
+            sess = bm.Session(ws, jobs=case["jobs"], keep_going=case.get("keep_going", False))
+            cls.append("same-frontend")
+
+            def build(**kw):
+                return sess.build(target=case["target"])
+        else:
+            def build(**kw):
+                return ws.build(target=case["target"], jobs=case["jobs"], **kw)
         if case["prebuild"]:
-            r0 = ws.build(target=case["target"], jobs=case["jobs"])
+            r0 = build()
             if not r0.ok:
                 return Outcome("un-faulted first build failed: %s" % r0.stderr[-300:])
             for e in case["edits"]:
@@ -117,7 +130,7 @@ def run_case(case, ctx, verbose=False):
             cls.append("after-successful-build")
         for c, f in list(case["faults"].items()) + list(case["slow"].items()):
             ws.set_fault(c, f)
-        r1 = ws.build(target=case["target"], jobs=case["jobs"], keep_going=case.get("keep_going", False))
+        r1 = build(keep_going=case.get("keep_going", False))
         if r1.timed_out:
             return Outcome("faulted build hung")
         if r1.crashed():
@@ -145,7 +158,7 @@ def run_case(case, ctx, verbose=False):
         # repaired build
         for c in list(case["faults"]) + list(case["slow"]):
             ws.set_fault(c, None)
-        r2 = ws.build(target=case["target"], jobs=case["jobs"])
+        r2 = build()
         if not r2.ok:
             return Outcome("build after lifting the fault failed: rc=%s %s" % (r2.rc, r2.stderr[-400:]), classes=cls)
         started2 = {c for c, w in r2.log if w == "start"}
@@ -157,7 +170,7 @@ def run_case(case, ctx, verbose=False):
         if v:
             return Outcome("after repair: " + v, classes=cls)
         # an immediate third build does nothing
-        r3 = ws.build(target=case["target"], jobs=case["jobs"])
+        r3 = build()
         if r3.ran():
             return Outcome("build after the repaired build re-ran %s" % r3.ran(), classes=cls)
         needed_names = [c["name"] for c in needed if c["tool"] == "shell"]
@@ -179,4 +192,6 @@ def run_case(case, ctx, verbose=False):
             cls.append("fault:" + case["faults"][f].split()[0])
         return Outcome(None, nontrivial=nt, classes=sorted(set(cls)))
     finally:
+        if sess is not None:
+            sess.close()
         ws.cleanup()
